@@ -48,6 +48,8 @@ type c07Red struct {
 	ActEarly bool   `json:"act_early,omitempty"`
 	End      int    `json:"end,omitempty"`  // writes at the end
 	Wait     string `json:"wait,omitempty"` // gate awaited before the act
+	// EarlyWait: gate awaited (softly: 3 s, then the scenario only gets the weaker oracle) before the early writes
+	EarlyWait string `json:"early_wait,omitempty"`
 }
 
 type c07Sc struct {
@@ -61,6 +63,10 @@ type c07Sc struct {
 	GenPanicAt int      `json:"gen_panic_at"`  // -1 none, else the generator panics after sending that many items
 	GenWait    string   `json:"gen_wait,omitempty"`
 	Saturate   bool     `json:"saturate,omitempty"` // mappers linger to overlap as much as the pool allows
+	// Probe: the last item is a probe: when its send completes gate "px" is closed and the generator waits for "rw"
+	Probe bool `json:"probe,omitempty"`
+	// OutVal selects what the reducer writes: "" (a tagged struct) | nil | int0 | empty-string | false | nil-ptr | empty-struct
+	OutVal string `json:"out_val,omitempty"`
 	Expect     []string `json:"expect,omitempty"`   // exact legal outcome keys (gated); nil = generic racing rule
 	// ExpectOrdered replaces Expect when the stamps confirm that every panic was raised strictly after
 	// the reducer's first Write had returned and after the generator function (source feeder) had returned.
@@ -103,7 +109,7 @@ type c07CancelEv struct {
 }
 
 type c07WriteEv struct {
-	val        c07Out
+	val        any
 	start, end int64
 }
 
@@ -136,6 +142,9 @@ type c07Run struct {
 	gateTO   string
 
 	gauge, maxGauge  int32
+	pxAt             int64 // stamp taken when the probe item's send completed
+	pxGauge          int32 // mappers in flight at that moment
+	softTO           bool  // a soft wait expired: only the weaker oracle applies
 	started          int32
 	active           int32 // user callbacks currently running
 	ctxStart, ctxEnd int64
@@ -163,6 +172,11 @@ func c07NewRun(idx int, sc *c07Sc) *c07Run {
 	}
 	mk(sc.GenWait)
 	mk(sc.Red.Wait)
+	mk(sc.Red.EarlyWait)
+	if sc.Probe {
+		mk("px")
+		mk("rw")
+	}
 	if sc.Red.Early > 0 {
 		mk("rw")
 	}
@@ -214,6 +228,43 @@ func (x *c07Run) wait(names string) {
 	for _, n := range strings.Split(names, ",") {
 		x.wait1(n)
 	}
+}
+
+// waitSoft waits for the gate at most 3 s; expiry is not an error, it only weakens the oracle.
+func (x *c07Run) waitSoft(name string) {
+	x.mu.Lock()
+	g := x.gates[name]
+	x.mu.Unlock()
+	if g == nil {
+		return
+	}
+	t := time.NewTimer(3 * time.Second)
+	defer t.Stop()
+	select {
+	case <-g:
+	case <-t.C:
+		x.mu.Lock()
+		x.softTO = true
+		x.mu.Unlock()
+	}
+}
+
+func (x *c07Run) outVal(k int) any {
+	switch x.sc.OutVal {
+	case "nil":
+		return nil
+	case "int0":
+		return 0
+	case "empty-string":
+		return ""
+	case "false":
+		return false
+	case "nil-ptr":
+		return (*int)(nil)
+	case "empty-struct":
+		return struct{}{}
+	}
+	return c07Out{x.idx, k}
 }
 
 func (x *c07Run) wait1(name string) {
@@ -417,7 +468,7 @@ func (x *c07Run) finishFn(id int) func() error {
 }
 
 func (x *c07Run) redWrite(w mr.Writer, k int) {
-	ev := &c07WriteEv{val: c07Out{x.idx, k}}
+	ev := &c07WriteEv{val: x.outVal(k)}
 	x.mu.Lock()
 	x.rwrites = append(x.rwrites, ev)
 	ev.start = vk.Seq()
@@ -439,6 +490,9 @@ func (x *c07Run) reducer(pipe <-chan any, w mr.Writer, cancel func(error)) {
 	r := x.sc.Red
 	k := 0
 	if r.Early > 0 {
+		if r.EarlyWait != "" {
+			x.waitSoft(r.EarlyWait)
+		}
 		x.arm("rw")
 		for i := 0; i < r.Early && w != nil; i++ {
 			x.redWrite(w, k)
@@ -493,7 +547,9 @@ func (x *c07Run) generate(source chan<- any) {
 		x.genRet = vk.Seq()
 		x.mu.Unlock()
 		x.leave()
-		x.closeGate("gr")
+		if x.sc.Entry != "MapReduceChan" {
+			x.closeGate("gr")
+		}
 	}()
 	for i := 0; i <= x.sc.N; i++ {
 		if i == x.sc.GenPanicAt {
@@ -502,6 +558,14 @@ func (x *c07Run) generate(source chan<- any) {
 		}
 		if i < x.sc.N {
 			source <- i
+			if x.sc.Probe && i == x.sc.N-1 {
+				x.mu.Lock()
+				x.pxAt = vk.Seq()
+				x.pxGauge = atomic.LoadInt32(&x.gauge)
+				x.mu.Unlock()
+				x.closeGate("px")
+				x.wait("rw")
+			}
 		}
 	}
 }
@@ -543,9 +607,7 @@ func (x *c07Run) call() (o c07Outcome) {
 				x.mu.Unlock()
 				x.closeGate("gr")
 			}()
-			for i := 0; i < x.sc.N; i++ {
-				src <- i
-			}
+			x.generate(src)
 			close(src)
 		}()
 		o.val, o.err = mr.MapReduceChan(src, x.mapper, x.reducer, x.opts()...)
@@ -604,7 +666,7 @@ func (x *c07Run) key(o c07Outcome) string {
 	}
 	x.mu.Lock()
 	defer x.mu.Unlock()
-	if len(x.rwrites) > 0 && o.val == any(x.rwrites[0].val) {
+	if len(x.rwrites) > 0 && o.val == x.rwrites[0].val {
 		return "value"
 	}
 	if o.val == nil {
@@ -638,6 +700,21 @@ func (x *c07Run) lateOrdered() bool {
 		}
 	}
 	return true
+}
+
+// cancelInProgressProved reports whether the stamps prove that the first cancel call was executing
+// (its drain consumed the probe item while every worker slot was occupied by a parked mapper, so the
+// dispatcher could not have taken it) strictly before the reducer's first Write was invoked.
+func (x *c07Run) cancelInProgressProved() bool {
+	x.mu.Lock()
+	defer x.mu.Unlock()
+	if x.softTO || x.gateTO != "" || x.pxAt == 0 || len(x.cancels) != 1 || len(x.rwrites) == 0 || len(x.panics) > 0 || x.ctxStart != 0 {
+		return false
+	}
+	if int(x.pxGauge) != x.sc.effWorkers() || x.mapSeen[x.sc.N-1] != 0 {
+		return false
+	}
+	return x.cancels[0].start < x.pxAt && x.pxAt < x.rwrites[0].start
 }
 
 // terminators reports the kinds of terminating events that were executed.
